@@ -269,6 +269,8 @@ class GraphRunner(programs.StorageRunner):
                     else:
                         state[o] = (None, d)
                 dangling = any(ref not in state for o in self.reachable(state) for ref in refs_of(state[o][1])[0])
+                # ... also inside garbage: a restored revision that refers to a deleted object
+                dangling = dangling or any(ref not in state for _, d_ in urecs for ref in refs_of(d_)[0])
                 if dangling:
                     self.excluded += 1
                     s.tpc_abort(t)
